@@ -133,6 +133,89 @@ let handle kind a =
        | LPanic c -> Some ("Panic:" ^ col_name (int_of_n c))
        | LREof -> Some "Eof"
        | LRBad -> Some "ReadErr")
+  | "lzc" ->
+      (* lazy optional fields (Data::iter, array values) and RecordBuf::try_from_alignment_record;
+         the float oracles are tables produced by the implementation: pt = text up to the next TAB
+         that parse_partial reads completely, ft = complete array-element text *)
+      let refs = refs_of a.(0) in
+      let pt = table a.(1) and ft = table a.(2) in
+      let tab = n_of_int 9 in
+      let p32 s = match List.assoc_opt (hex_of_bytes s) ft with Some b -> Some (n_of_dec b) | None -> None in
+      let p32p s =
+        let rec span acc = function
+          | c :: t when c <> tab -> span (c :: acc) t
+          | rest -> (List.rev acc, rest) in
+        let (tok, rest) = span [] s in
+        match List.assoc_opt (hex_of_bytes tok) pt with Some b -> Some (n_of_dec b, rest) | None -> None in
+      let text = bytes_of_hex a.(3) in
+      let derr = function DEof -> "Err:UnexpectedEof" | DInv -> "Err:InvalidData" | DFuel -> "Fuel" in
+      let elems show l =
+        let rec go = function
+          | [] -> ""
+          | e :: t -> (match show e with Some s -> "," ^ s ^ go t | None -> ",!") in
+        go l in
+      let show_val = function
+        | LChar c -> "A:" ^ dec_of_n c
+        | LI32 z -> "i:" ^ dec_of_z z
+        | LU32 z -> "I:" ^ dec_of_z z
+        | LFloat b -> "f:" ^ dec_of_n b
+        | LStr s -> "Z:" ^ hex_of_bytes s
+        | LHex s -> "H:" ^ hex_of_bytes s
+        | LArrI (t, buf) ->
+            "B:" ^ String.make 1 (char_of_ity t)
+            ^ elems (fun e -> match lz_elem_i t e with Some z -> Some (dec_of_z z) | None -> None) (lz_arr_elems buf)
+        | LArrF buf ->
+            "B:f" ^ elems (fun e -> match p32 e with Some b -> Some (dec_of_n b) | None -> None) (lz_arr_elems buf) in
+      let iter_obs =
+        match lazy_read text with
+        | LEof -> "Eof"
+        | LBad -> "ReadErr"
+        | LRec (buf, ends) ->
+            (match slice_from buf (bound ends (nat_of_int 10)) with
+             | AOk d ->
+                 (match lazy_data p32p d with
+                  | DOk [] -> "_"
+                  | DOk l -> String.concat ";" (List.map (fun ((t0, t1), v) -> hex_of_bytes [t0; t1] ^ ":" ^ show_val v) l)
+                  | DErr e -> derr e)
+             | _ -> "Panic") in
+      let conv_obs =
+        match lazy_convert p32 p32p refs text with
+        | COk r -> dump_spec r
+        | CErr _ -> "Err"
+        | CPanic _ -> "Panic"
+        | CEof -> "Eof"
+        | CBad -> "ReadErr" in
+      Some (iter_obs ^ " | " ^ conv_obs)
+  | "tb" ->
+      (* the bridge between the C06 and C05 record models: to_bam_d, then the C05 BAM encoder *)
+      (match encode (n_of_dec a.(0)) (to_bam_d (dec_spec a 1)) with
+       | Ok b -> Some (hex_of_bytes b)
+       | Err InvalidInput -> Some "Err:InvalidInput"
+       | Err InvalidData -> Some "Err:InvalidData"
+       | Err UnexpectedEof -> Some "Err:UnexpectedEof")
+  | "sf" ->
+      let pt = table a.(0) in
+      let p32 s = match List.assoc_opt (hex_of_bytes s) pt with Some b -> Some (n_of_dec b) | None -> None in
+      let comma = n_of_int 44 in
+      let p32p s =
+        let rec span acc = function
+          | c :: t when c <> comma -> span (c :: acc) t
+          | rest -> (List.rev acc, rest) in
+        let (tok, rest) = span [] s in
+        match p32 tok with Some b -> Some (b, rest) | None -> None in
+      (match read_file p32 p32p (bytes_of_hex a.(1)) with
+       | None -> Some "Err"
+       | Some (h, (rs, e)) ->
+           let rss = if rs = [] then "_" else String.concat ";" (List.map dump_spec rs) in
+           let es = match e with FEof -> "Eof" | FErr c -> "Err:" ^ col_name (int_of_n c) | FFuel -> "Fuel" in
+           Some (enc_header h ^ " # " ^ rss ^ " # " ^ es))
+  | "sfw" ->
+      let h = dec_header (Array.sub a 0 5) in
+      let n = int_of_string a.(5) in
+      let rs = List.init n (fun i -> dec_spec a (6 + 12 * i)) in
+      (match write_file (fun _ -> []) (fun _ -> []) h rs with
+       | Some t -> Some (hex_of_bytes t)
+       | None -> Some "Err")
   | "wr" ->
       let refs = refs_of a.(0) in
       let ft = table a.(1) and dt = table a.(2) in
